@@ -22,10 +22,23 @@ import (
 	"time"
 )
 
-const (
-	repoDir  = "/repo"
-	verifDir = "/verif"
+const verifDir = "/verif"
+
+// repoDir is /repo; VERIF_REPO points a run at a scratch worktree instead (used
+// only to try the checks against seeded changes without touching /repo; its
+// evidence, logs and replay files then go to outDir under /tmp, never to /verif).
+var (
+	repoDir = "/repo"
+	outDir  = verifDir
 )
+
+func init() {
+	if r := os.Getenv("VERIF_REPO"); r != "" && r != "/repo" {
+		repoDir = filepath.Clean(r)
+		outDir = filepath.Join(os.TempDir(), "verif-out", strings.ReplaceAll(strings.Trim(repoDir, "/"), "/", "_"))
+		os.MkdirAll(outDir, 0o755)
+	}
+}
 
 // Unit is one test binary + test function to run for a check.
 type Unit struct {
@@ -113,6 +126,20 @@ func loadConfig() *Config {
 	if err := json.Unmarshal(b, &c); err != nil {
 		die(2, "checks.json: %v", err)
 	}
+	files, _ := filepath.Glob(filepath.Join(verifDir, "checks.d", "*.json"))
+	sort.Strings(files)
+	for _, f := range files {
+		fb, err := os.ReadFile(f)
+		if err != nil {
+			die(2, "%s: %v", f, err)
+		}
+		var ck Check
+		if err := json.Unmarshal(fb, &ck); err != nil {
+			die(2, "%s: %v", f, err)
+		}
+		c.Checks = append(c.Checks, ck)
+	}
+	sort.Slice(c.Checks, func(i, j int) bool { return c.Checks[i].ID < c.Checks[j].ID })
 	return &c
 }
 
@@ -140,8 +167,9 @@ func run(dir string, env []string, name string, args ...string) (string, error) 
 
 // treeKey hashes everything a build depends on: /repo HEAD, tracked changes,
 // untracked go files, and /verif's harness, runtime and config.
-func treeKey() string {
+func treeKey(pkg string) string {
 	h := sha256.New()
+	h.Write([]byte(pkg + "|" + os.Getenv("VERIF_ONLY") + "|" + repoDir))
 	head, _ := run(repoDir, nil, "git", "rev-parse", "HEAD")
 	h.Write([]byte(head))
 	diff, _ := run(repoDir, nil, "git", "diff", "HEAD", "--", ".")
@@ -155,16 +183,12 @@ func treeKey() string {
 		h.Write([]byte(f))
 		h.Write(b)
 	}
-	for _, d := range []string{"harness", "hk"} {
-		filepath.Walk(filepath.Join(verifDir, d), func(p string, info os.FileInfo, err error) error {
-			if err != nil || info.IsDir() {
-				return nil
-			}
-			b, _ := os.ReadFile(p)
-			h.Write([]byte(p))
-			h.Write(b)
-			return nil
-		})
+	hfiles, _ := filepath.Glob(filepath.Join(verifDir, "hk", "*.go"))
+	hfiles = append(hfiles, harnessFiles(pkg)...)
+	for _, p := range hfiles {
+		b, _ := os.ReadFile(p)
+		h.Write([]byte(p))
+		h.Write(b)
 	}
 	b, _ := os.ReadFile(filepath.Join(verifDir, "checks.json"))
 	// only the instrumentation part of the config influences binaries
@@ -179,10 +203,37 @@ func treeKey() string {
 	return hex.EncodeToString(h.Sum(nil))[:16]
 }
 
+// harnessFiles lists the harness sources of one package. With VERIF_ONLY=c13,c02
+// only files whose name starts with one of those prefixes (or with "common")
+// are used, so that work on one harness is not blocked by another one.
+func harnessFiles(pkg string) []string {
+	all, _ := filepath.Glob(filepath.Join(verifDir, "harness", pkg, "*.go"))
+	only := os.Getenv("VERIF_ONLY")
+	if only == "" {
+		return all
+	}
+	var out []string
+	for _, f := range all {
+		base := strings.ToLower(filepath.Base(f))
+		if strings.HasPrefix(base, "common") {
+			out = append(out, f)
+			continue
+		}
+		for _, pre := range strings.Split(strings.ToLower(only), ",") {
+			if pre != "" && strings.HasPrefix(base, pre) {
+				out = append(out, f)
+				break
+			}
+		}
+	}
+	return out
+}
+
 func sanitize(pkg string) string { return strings.ReplaceAll(pkg, "/", "_") }
 
 // build makes sure the test binary for (pkg, variant) exists for this tree.
-func build(cfg *Config, key, pkg, variant string) (string, error) {
+func build(cfg *Config, pkg, variant string) (string, error) {
+	key := treeKey(pkg)
 	dir := filepath.Join(verifDir, ".build", key)
 	os.MkdirAll(dir, 0o755)
 	bin := filepath.Join(dir, sanitize(pkg)+"."+variant+".test")
@@ -227,15 +278,9 @@ func build(cfg *Config, key, pkg, variant string) (string, error) {
 	replace[filepath.Join(repoDir, "internal/verifrt/sites_gen.go")] = sp
 	// harness tests for every package that has some (all are added so that
 	// the dependency graph of any one package build is consistent)
-	harnessRoot := filepath.Join(verifDir, "harness")
-	filepath.Walk(harnessRoot, func(p string, info os.FileInfo, err error) error {
-		if err != nil || info.IsDir() || !strings.HasSuffix(p, ".go") {
-			return nil
-		}
-		rel, _ := filepath.Rel(harnessRoot, p)
-		replace[filepath.Join(repoDir, rel)] = p
-		return nil
-	})
+	for _, p := range harnessFiles(pkg) {
+		replace[filepath.Join(repoDir, pkg, filepath.Base(p))] = p
+	}
 	// hide the repository's own tests of the package being built
 	own, _ := filepath.Glob(filepath.Join(repoDir, pkg, "*_test.go"))
 	for _, f := range own {
@@ -309,7 +354,7 @@ func pruneBuilds(keep string) {
 	}
 	sort.Slice(ks, func(i, j int) bool { return ks[i].t.After(ks[j].t) })
 	for i, k := range ks {
-		if i >= 2 {
+		if i >= 10 {
 			os.RemoveAll(filepath.Join(root, k.name))
 		}
 	}
@@ -446,7 +491,6 @@ func main() {
 }
 
 func buildAll(cfg *Config) {
-	key := treeKey()
 	seen := map[string]bool{}
 	type job struct{ pkg, variant string }
 	var jobs []job
@@ -461,7 +505,7 @@ func buildAll(cfg *Config) {
 	}
 	// sequential: the go tool parallelises internally
 	for _, j := range jobs {
-		if _, err := build(cfg, key, j.pkg, j.variant); err != nil {
+		if _, err := build(cfg, j.pkg, j.variant); err != nil {
 			fmt.Fprintln(os.Stderr, err)
 			os.Exit(2)
 		}
@@ -476,11 +520,11 @@ func runCheck(cfg *Config, chk *Check, tier string) int {
 			seed = n
 		}
 	}
-	key := treeKey()
-	logDir := filepath.Join(verifDir, "logs", chk.ID)
+	key := ""
+	logDir := filepath.Join(outDir, "logs", chk.ID)
 	os.RemoveAll(logDir)
 	os.MkdirAll(logDir, 0o755)
-	evPath := filepath.Join(verifDir, "evidence", chk.ID+".json")
+	evPath := filepath.Join(outDir, "evidence", chk.ID+".json")
 	os.MkdirAll(filepath.Dir(evPath), 0o755)
 
 	var inconclusive []string
@@ -492,7 +536,8 @@ func runCheck(cfg *Config, chk *Check, tier string) int {
 	}
 	var jobs []batchJob
 	for _, u := range chk.Units {
-		bin, err := build(cfg, key, u.Pkg, u.Variant)
+		bin, err := build(cfg, u.Pkg, u.Variant)
+		key += treeKey(u.Pkg) + " "
 		if err != nil {
 			fmt.Fprintln(os.Stderr, err)
 			inconclusive = append(inconclusive, "harness-build: "+firstLine(err.Error()))
@@ -574,6 +619,10 @@ func runCheck(cfg *Config, chk *Check, tier string) int {
 			}
 			mu.Lock()
 			defer mu.Unlock()
+			sawRace := false
+			if rf, _ := filepath.Glob(raceLog + ".*"); len(rf) > 0 {
+				sawRace = true
+			}
 			for _, v := range res.Violations {
 				v.Unit = tag
 				v.Batch = j.batch
@@ -590,7 +639,7 @@ func runCheck(cfg *Config, chk *Check, tier string) int {
 				viols = append(viols, violation{Sig: "crash:" + msg, Detail: map[string]any{"log": logFile, "exit": exit, "tail": tail(lt, 40)}, Unit: tag, Batch: j.batch})
 			case exit != 0 && exit != 66:
 				// test reported FAIL without recording a violation: harness assertion
-				if len(res.Violations) == 0 {
+				if len(res.Violations) == 0 && !sawRace {
 					inconclusive = append(inconclusive, fmt.Sprintf("test failed without a recorded violation in %s (exit %d, see %s): %s", tag, exit, logFile, failLine(lt)))
 				}
 			}
@@ -602,6 +651,7 @@ func runCheck(cfg *Config, chk *Check, tier string) int {
 				rb, _ := os.ReadFile(rf)
 				for _, rr := range parseRaces(string(rb)) {
 					raceCount++
+					sawRace = true
 					anch := false
 					for _, f := range rr.Files {
 						for _, a := range chk.RaceFiles {
@@ -702,7 +752,7 @@ func runCheck(cfg *Config, chk *Check, tier string) int {
 	}
 	knownHit := map[string]int{}
 	var unknown []violation
-	replayDir := filepath.Join(verifDir, "replay", chk.ID)
+	replayDir := filepath.Join(outDir, "replay", chk.ID)
 	for _, v := range viols {
 		matched := false
 		for _, k := range kfs {
